@@ -9,7 +9,7 @@ from .smt import (And, Or, Not, Implies, If, Min, Max, iv, fresh_int, fresh_bool
                   const_bool, TRUE, FALSE, check_sat, quick_sat, entails, I, B, R)
 from .values import (V, SInt, SBool, SReal, SNone, NONE, SStr, STuple, Ref, SymRef, SExc, ClassV, FuncV, StubV, ModV,
                      RegexV, MatchV, Opaque, PyConst, SOpt, Lit, Win, Num, mk_win, concat, str_eq, HObj, HList, HBio,
-                     HDict, SymSeqA, Unsupported, _same_const)
+                     HDict, SMaybe, SymSeqA, Unsupported, _same_const)
 from .shapes import (Shape, IntShape, BoolShape, RealShape, ConstShape, WinShape, TupleShape, SymRefShape,
                      OptionShape, ListShape, shape_of, join_shape)
 from .state import State
@@ -366,6 +366,23 @@ class Executor:
                     d[self.dict_key(k)] = v
                 out.append(self.res(s2, s2.alloc(HDict(d))))
         return out
+
+    def dict_dyn_key(self, o, k, create=False):
+        """is the symbolic string key k in the dict's abstract region: it starts with a literal prefix that no concrete
+        key of the dict shares (so it cannot alias any of them)"""
+        if not (k.atoms and isinstance(k.atoms[0], Lit) and k.atoms[0].b):
+            return False
+        p = k.atoms[0].b
+        if o.dyn is not None:
+            if p.startswith(o.dyn["prefix"]):
+                return True
+            return False
+        ptxt = p.decode("latin-1")
+        for key in o.items:
+            if isinstance(key, str) and (key.startswith(ptxt) or ptxt.startswith(key)):
+                return False
+        o.dyn = {"prefix": p, "count": iv(0), "last": None}
+        return True
 
     def dict_key(self, k):
         if isinstance(k, SStr):
@@ -832,8 +849,15 @@ class Executor:
             o = st.obj(container)
             if isinstance(o, HDict):
                 if isinstance(item, SStr) and item.concrete_py() is None:
+                    if self.dict_dyn_key(o, item):
+                        has = z3.Bool(fresh_name("dict.has"))
+                        o.dyn["last"] = (item, has)
+                        return has
                     return Or(*[str_eq(item, SStr.lit(k)) for k in o.items if isinstance(k, str)])
-                return TRUE if self.dict_key(item) in o.items else FALSE
+                kk = self.dict_key(item)
+                if kk in o.items:
+                    return o.items[kk].present if isinstance(o.items[kk], SMaybe) else TRUE
+                return FALSE
             r = self.env.contains_hook(self, st, container, o, item)
             if r is not None:
                 return r
@@ -1071,6 +1095,13 @@ class Executor:
         if isinstance(v, Ref):
             o = st.obj(v)
             if isinstance(o, HDict):
+                if isinstance(k, SStr) and k.concrete_py() is None and self.dict_dyn_key(o, k):
+                    val = strops.fresh_str(st, "dict.dyn.value", k.is_str)
+                    last = o.dyn.get("last")
+                    if last is not None and last[0].atoms == k.atoms and entails(st.pc, last[1], 500):
+                        return [self.res(st, val)]            # guarded by `key in d`
+                    miss = st.fork()
+                    return [self.res(st, val), self.res_exc(miss, SExc(KeyError))]
                 if isinstance(k, SStr) and k.concrete_py() is None:
                     # symbolic key against literal keys: case split
                     out = []
@@ -1085,7 +1116,16 @@ class Executor:
                     return out
                 key = self.dict_key(k)
                 if key in o.items:
-                    return [self.res(st, o.items[key])]
+                    val = o.items[key]
+                    if isinstance(val, SMaybe):
+                        out = []
+                        a, b = self.split(st, val.present)
+                        if a is not None:
+                            out.append(self.res(a, val.inner))
+                        if b is not None:
+                            out.append(self.res_exc(b, SExc(KeyError)))
+                        return out
+                    return [self.res(st, val)]
                 return [self.res_exc(st, SExc(KeyError))]
             r = self.env.index_hook(self, st, v, o, k)
             if r is not None:
@@ -1474,6 +1514,10 @@ class Executor:
         if isinstance(cont, Ref):
             o = st.obj(cont)
             if isinstance(o, HDict):
+                if isinstance(key, SStr) and key.concrete_py() is None and self.dict_dyn_key(o, key, create=True):
+                    o.dyn["count"] = o.dyn["count"] + 1
+                    o.dyn["last"] = None
+                    return [(st, None)]
                 o.items[self.dict_key(key)] = v
                 return [(st, None)]
             r = self.env.setitem_hook(self, st, cont, o, key, v)
